@@ -25,7 +25,7 @@ from .. import core, cxx, impl, qgen, semrun
 PID = "C02"
 PROP_FILE = "Properties/C02.v"
 BACKENDS = ["atlas", "cms_aod", "cms_miniaod"]
-ALLOW = ["range", "first", "aggregate", "int_true_division", "selectmany_seq_column", "selectmany_inside"]
+ALLOW = ["range", "first", "aggregate", "int_true_division", "selectmany_seq_column", "selectmany_inside", "shared_shapes"]
 TRUSTED = [
     "Coq 8.16.1 kernel (coqc); vm_compute only in the witness Examples",
     "Cpp/IR.v + Cpp/Exec.v as the meaning of the emitted C++ subset (shared with C01/C03-C05); the theorems are about Exec, g++ validates the checkers' verdicts on samples",
@@ -44,7 +44,7 @@ ASSUME = [
 # queries
 # ------------------------------------------------------------------------------------------------
 def method_table(uni: qgen.Universe) -> List[List[str]]:
-    mt = [[m, "double"] for m in uni.dbl_methods]
+    mt = [[m, "double"] for m in uni.dbl_methods] + [["color", "MyNS::Color"]]
     for m, t in uni.declared.items():
         if not t.startswith("vec_"):
             mt.append([m, t])
@@ -66,6 +66,12 @@ def seeded(uni: qgen.Universe) -> List[Tuple[str, set]]:
         (f'ds.Select(lambda e: DeltaR(e.{a}("b1").First().eta(), e.{a}("b1").First().phi(), 1.0, 2.0))', {"inject"}),
         (f'ds.Select(lambda e: fv_mix(e.{a}("b1").First().eta(), e.{b}("b2").Count()))', {"inject"}),
         (f'ds.Select(lambda e: e.{a}("b1").Select(lambda o: DeltaR(o.eta(), o.phi(), e.{b}("b1").First().eta(), e.{b}("b1").First().phi())))', {"inject"}),
+        # a method with a tree_type override (C++ enum stored as int) as scalar, 1-D and 2-D column: the class member, the
+        # local vectors and what is pushed into them must agree
+        (f'ds.SelectMany(lambda e: e.{a}("b1")).Select(lambda j: j.color())', {"tree_type"}),
+        (f'ds.Select(lambda e: e.{a}("b1").Select(lambda j: j.color()))', {"tree_type"}),
+        (f'ds.Select(lambda e: e.{a}("b1").Select(lambda j: j.hits().Select(lambda h: j.color())))', {"tree_type"}),
+        (f'ds.Select(lambda e: e.{a}("b1").Select(lambda j: e.{b}("b1").Select(lambda t: t.color())))', {"tree_type"}),
         ((f'ds.Select(lambda e: e.{a}("b1").First().getAttributeFloat("emf"))' if uni.backend == "atlas"
           else f'ds.Select(lambda e: isNonnull(e.{a}("b1").First()))'), {"inject"}),
     ]
